@@ -130,17 +130,20 @@ RTypes == { <<>>, <<"u","8">>, <<"i","8">>, <<"f","3","2">>, <<"f","6","4">> }
 NumToks == { <<"0">>, <<"3","0","0">>, <<"DASH","1">>, <<"1","DOT","5">>, <<"1","e","9","9">>, <<"DASH","1","e","9","9">>, <<"DASH","0">>,
              <<"1","e","DASH","4","0","0">>, <<"1","8","4","4","6","7","4","4","0","7","3","7","0","9","5","5","1","6","1","6">> }
 StrOnlyToks == { <<"i","n","f">>, <<"N","a","N">>, <<>>, <<"DOT","DOT">>, <<"1","DOT","DOT","EQ">>, <<"5","DOT","DOT","1">> }
-ValueKinds == { "str", "null", "num", "bool", "map", "seq", "empty" }
+ValueKinds == { "str", "null", "num", "bool", "map", "seq", "empty", "inf", "nan" }
 ValueNode(k) == CASE k = "str" -> S(<<"x">>) [] k = "null" -> Raw("null") [] k = "num" -> Raw("5") [] k = "bool" -> Raw("true")
-                  [] k = "map" -> MapNode(<< E("s", S(<<"x">>)) >>) [] k = "seq" -> SeqNode(<< S(<<"x">>) >>) [] OTHER -> S(<<>>)
+                  [] k = "map" -> MapNode(<< E("s", S(<<"x">>)) >>) [] k = "seq" -> SeqNode(<< S(<<"x">>) >>)
+                  [] k \in {"inf", "nan"} -> SpecialNode(k) [] OTHER -> S(<<>>)
 RangeAdvCase(ty, struct, tok, asNum, vk, fk) ==
-    LET count == IF asNum THEN Raw(Str(tok)) ELSE S(tok)
+    LET count == IF Len(tok) = 2 /\ tok[1] = "SPECIAL" THEN SpecialNode(tok[2]) ELSE IF asNum THEN Raw(Str(tok)) ELSE S(tok)
         branch == IF struct THEN MapNode(<< E("count", count), E("value", ValueNode(vk)) >>) ELSE SeqNode(<< ValueNode(vk), count >>)
         fb == IF struct THEN MapNode(<< E("value", ValueNode(fk)) >>) ELSE SeqNode(<< ValueNode(fk) >>) IN
     Single("range-adv", "any", << E("r", RangeSeq(ty, << branch, fb >>)) >>)
 \* (universes are built as SEQUENCES over sets of homogeneous index tuples: a set of cases would make TLC compare file
 \* nodes of different shapes)
+\* (count tokens <<"SPECIAL", v>> are written as the format's own spelling of inf / nan)
 RangeAdvIdx ==
+    { <<ty, st, <<"SPECIAL", v>>, TRUE, "str", "str">> : ty \in RTypes, st \in BOOLEAN, v \in {"inf", "neginf", "nan"} } \cup
     { <<ty, st, tok, FALSE, vk, "str">> : ty \in RTypes, st \in BOOLEAN, tok \in NumToks \cup StrOnlyToks, vk \in ValueKinds }
     \cup { <<ty, st, tok, TRUE, vk, "str">> : ty \in RTypes, st \in BOOLEAN, tok \in NumToks, vk \in {"str", "null"} }
     \cup { <<ty, st, <<"0">>, FALSE, "str", fk>> : ty \in RTypes, st \in BOOLEAN, fk \in ValueKinds }
@@ -148,11 +151,11 @@ RangeAdversarial == LET I == SetToSeq(RangeAdvIdx) IN [j \in DOMAIN I |-> RangeA
 
 \* ---- keys and values, adversarially: odd key names x every kind of JSON value, in the default locale and in a second one
 KeyNames == { "k", "", "a-b", "type", "1a", "a b", "self", "_", "a.b", "a:b", "Self", "crate", "k_", "_one", "k_one_one" }
-AnyKinds == { "str", "null", "num", "neg", "float", "bool", "map", "emptymap", "seq", "emptyseq", "empty", "var" }
+AnyKinds == { "str", "null", "num", "neg", "float", "bool", "map", "emptymap", "seq", "emptyseq", "empty", "var", "inf", "neginf", "nan" }
 AnyNode(k) == CASE k = "str" -> S(<<"x">>) [] k = "null" -> Raw("null") [] k = "num" -> Raw("5") [] k = "neg" -> Raw("-3")
                 [] k = "float" -> Raw("1.5") [] k = "bool" -> Raw("true") [] k = "map" -> MapNode(<< E("s", S(<<"x">>)) >>)
                 [] k = "emptymap" -> MapNode(<<>>) [] k = "seq" -> SeqNode(<< SeqNode(<< S(<<"x">>) >>) >>) [] k = "emptyseq" -> SeqNode(<<>>)
-                [] k = "var" -> S(VarX) [] OTHER -> S(<<>>)
+                [] k = "var" -> S(VarX) [] k \in {"inf", "neginf", "nan"} -> SpecialNode(k) [] OTHER -> S(<<>>)
 KeyAdvIdx == { <<n, k1, k2>> : n \in {"k", "a-b", "type"}, k1 \in AnyKinds, k2 \in AnyKinds } \cup { <<n, k1, k1>> : n \in KeyNames, k1 \in AnyKinds }
 KeyAdversarial == LET I == SetToSeq(KeyAdvIdx) IN
     [j \in DOMAIN I |-> Double("key-adv", "any", << E(I[j][1], AnyNode(I[j][2])), E("z", S(<<"z">>)) >>, << E(I[j][1], AnyNode(I[j][3])), E("z", S(<<"z">>)) >>)]
